@@ -412,8 +412,8 @@ fn interp(ty: &Ty, n: &Node) -> Result<Option<Val>, ()> {
                 Node::Scalar { text, tag: Some(t), sty, .. } if t.starts_with('!') && !t.starts_with("!!") => {
                     let name = &t[1..];
                     if vs.iter().any(|(v, _)| v == name) {
-                        // !Variant payload: the scalar is the payload, read as a string-tagged scalar
-                        let p = Node::Scalar { text: text.clone(), sty: *sty, tag: Some("!!str".into()), anchor: None };
+                        // !Variant payload: the scalar, without the tag, is the payload -- exactly as in `{Variant: payload}`
+                        let p = Node::Scalar { text: text.clone(), sty: *sty, tag: None, anchor: None };
                         match payload_of(name, Some(&p))? {
                             Some(v) => v,
                             None => return Ok(None),
@@ -422,8 +422,6 @@ fn interp(ty: &Ty, n: &Node) -> Result<Option<Val>, ()> {
                         return Ok(None); // a tag that is no variant name: TaggedEnumMismatch or plain variant text
                     }
                 }
-                // (a scalar that arrives as the payload of `!Variant payload` was re-tagged !!str above: for an enum it
-                // names the variant like an untagged scalar)
                 Node::Scalar { text, sty, tag, anchor } if tag.is_none() || tag.as_deref() == Some("!!str") => {
                     let name = docgen::event_text(text, *sty, &None, anchor);
                     match payload_of(&name, None)? {
@@ -533,6 +531,32 @@ pub fn run(ctx: &mut Ctx) {
                 if let Ok(v) = &got {
                     ctx.fail("shape-mismatch-accepted", format!("{text:?} as {ty:?}: the document does not have the shape of the type but reads as {v:?}"), replay);
                 }
+            }
+        }
+    }    notation_equivalence(ctx);
+}
+
+/// The three enum notations name the same payload node: `!V payload` reads exactly as `{V: payload}` does (the tag
+/// selects the variant and is not part of the payload: F62).
+fn notation_equivalence(ctx: &mut Ctx) {
+    let payload_tys = [Ty::Option(Box::new(Ty::String)), Ty::Option(Box::new(Ty::Int(true, 32))), Ty::String, Ty::Int(true, 32), Ty::Bool, Ty::F64, Ty::Any,
+        Ty::Option(Box::new(Ty::Map(Box::new(Ty::String), Box::new(Ty::Bool)))), Ty::Unit, Ty::Char];
+    let texts = ["~", "null", "Null", "123", "0x1F", "true", "yes", "x", "''", "\"null\"", "1.5", ".inf", "<<", "-"];
+    for pt in &payload_tys {
+        let ty = Ty::Enum("E".into(), vec![("V".into(), VShape::Newtype(pt.clone())), ("W".into(), VShape::Unit)]);
+        for t in texts {
+            let tagged = format!("!V {t}\n");
+            let mapped = format!("V: {t}\n");
+            let o = DOpts::new(P::Error);
+            let (term, a, _) = deserk::deser_case(&tagged, &ty, &o);
+            ctx.case(term, true, json!({"kind": "typed", "text": tagged, "ty": format!("{ty:?}"), "ty_coq": ty.coq()}));
+            let (term, b, _) = deserk::deser_case(&mapped, &ty, &o);
+            ctx.case(term, true, json!({"kind": "typed", "text": mapped, "ty": format!("{ty:?}"), "ty_coq": ty.coq()}));
+            ctx.direct_evaluations += 1;
+            let same = match (&a, &b) { (Ok(x), Ok(y)) => x == y, (Err(_), Err(_)) => true, _ => false };
+            if !same {
+                ctx.fail("enum-notations-differ", format!("{tagged:?} reads as {:?} but {mapped:?} as {:?} (payload type {pt:?})", a.as_ref().map_err(|e| crate::coq::variant_name(e)), b.as_ref().map_err(|e| crate::coq::variant_name(e))),
+                    json!({"kind": "typed", "text": tagged, "ty": format!("{ty:?}"), "ty_coq": ty.coq()}));
             }
         }
     }
